@@ -24,7 +24,8 @@ from ..core import import_repo, MachineryError
 from ..runner import main
 from .. import tracecheck as tc
 
-CH = {1: "/", 2: "\\", 3: "a", 4: "A", 5: ".", 6: " ", 7: "é", 8: ":"}
+CH = {1: "/", 2: "\\", 3: "a", 4: "A", 5: ".", 6: " ", 7: "é", 8: ":",
+      9: "É", 10: "\u0130", 11: "i", 12: "\u0307"}      # U+0130 'İ': the one character whose lower() is two characters, 'i' U+0307
 CODE = {v: k for k, v in CH.items()}
 CONVS = [(sep, cs, win) for sep in (1, 2) for cs in (1, 0) for win in (0, 1)]       # the 8 helper configurations
 CHUNK = 64                                                                          # cases per trace
@@ -295,27 +296,28 @@ def _observe_chunk(cases):
 
 
 # ---- families --------------------------------------------------------------------------------------------------------
-def gen_cfg(ctx, win, lp, lq, lr):
-    name = "Gen_Paths_%d_%d%d%d.cfg" % (win, lp, lq, lr)
+def gen_cfg(ctx, win, lp, lq, lr, ext=()):
+    name = "Gen_Paths_%d_%d%d%d%s.cfg" % (win, lp, lq, lr, "_x" + "-".join(map(str, ext)) if ext else "")
     return tc.gen_cfg(ctx, name,
-                      "CONSTANTS\n Seps = {1}\n Cases = {TRUE}\n Wins = {%s}\n Wins2 = {}\n LP = %d\n LQ = %d\n LR = %d\n"
+                      "CONSTANTS\n Seps = {1}\n Cases = {TRUE}\n Wins = {%s}\n Wins2 = {}\n LP = %d\n LQ = %d\n LR = %d\n Ext = {%s}\n"
                       "SPECIFICATION PathsSpec\nINVARIANT Emit\nCHECK_DEADLOCK FALSE\n"
-                      % ("TRUE" if win else "FALSE", lp, lq, lr))
+                      % ("TRUE" if win else "FALSE", lp, lq, lr, ", ".join(map(str, ext))))
 
 
 _gen_cache = {}
 
 
-def generate(ctx, win, lp, lq, lr):
-    """Every (p, q, r) within the bounds over the 7-symbol alphabet (win = 0) or with ':' added (win = 1), from TLC."""
-    key = (win, lp, lq, lr)
+def generate(ctx, win, lp, lq, lr, ext=()):
+    """Every (p, q, r) within the bounds over the 7-symbol alphabet (win = 0) or with ':' added (win = 1), or over the
+    alphabet `ext` (character codes) when given - from TLC."""
+    key = (win, lp, lq, lr, tuple(ext))
     if key not in _gen_cache:
-        res = ctx.tlc("Gen_Paths", gen_cfg(ctx, win, lp, lq, lr), what="enumerate inputs |p|<=%d |q|<=%d |r|<=%d%s"
-                      % (lp, lq, lr, " with ':'" if win else ""), workers=1, count=False, heap="3g")
+        res = ctx.tlc("Gen_Paths", gen_cfg(ctx, win, lp, lq, lr, ext), what="enumerate inputs |p|<=%d |q|<=%d |r|<=%d%s"
+                      % (lp, lq, lr, " over %r" % s2p(ext) if ext else " with ':'" if win else ""), workers=1, count=False, heap="3g")
         if not res.ok:
             raise MachineryError("input generator failed\n" + res.tail())
         triples = tc.parse_histories(res)
-        n = 8 if win else 7
+        n = len(ext) if ext else 8 if win else 7
         want = 1
         for bound in (lp, lq, lr):
             want *= sum(n ** k for k in range(bound + 1))
@@ -338,7 +340,7 @@ def generate_spelled(ctx, lp, lq, lr, names, shortq, longq=(), spells=ALL_SPELLS
         name = "Gen_PathsSpell_%s.cfg" % hashlib.sha1(repr(key).encode()).hexdigest()[:12]      # (families are generated concurrently)
         cfg = tc.gen_cfg(ctx, name,
                          "CONSTANTS\n Seps = {1, 2}\n Cases = {TRUE}\n Wins = {TRUE, FALSE}\n Wins2 = {}\n LP = %d\n LQ = %d\n LR = %d\n"
-                         " NameChars = %s\n WinNames = %s\n WinQ = %s\n ShortQ = %s\n LongQ = %s\n Spells = %s\n"
+                         " Ext = {}\n NameChars = %s\n WinNames = %s\n WinQ = %s\n ShortQ = %s\n LongQ = %s\n Spells = %s\n"
                          "SPECIFICATION SpellSpec\nINVARIANT Emit\nCHECK_DEADLOCK FALSE\n"
                          % (lp, lq, lr, sets(names), sets(win_names), sets(win_q), sets(shortq), sets(longq), sets(spells)))
         res = ctx.tlc("Gen_PathsSpell", cfg, what="enumerate folders as spelled: %s" % fam_text((lp, lq, lr, names, shortq, longq, spells)),
@@ -470,12 +472,15 @@ def show_res(v):
 MC_QUICK = [("MC_Paths.cfg", "design: all laws, 8 conventions, |p|<=2 |q|<=1"),
             ("MC_PathsX.cfg", "design: translation laws, 64 convention pairs, root |p|<=1 vs bare root, relative part |q|<=1"),
             ("MC_PathsSK.cfg", "design: folder laws on the 14 re-spellings of join(p), join(r), 4 conventions, |p|,|q|,|r|<=1"),
-            ("MC_PathsY.cfg", "design: translation laws, roots as spelled (14 re-spellings of join(p) vs of the bare root), 16 convention pairs")]
+            ("MC_PathsY.cfg", "design: translation laws, roots as spelled (14 re-spellings of join(p) vs of the bare root), 16 convention pairs"),
+            ("MC_PathsE.cfg", "design: one-sided laws over { / A U+00C9 U+0130 i U+0307 } (lower() of U+0130 is two characters), 8 conventions, "
+                              "|p|<=3 |q|<=1")]
 MC_THOROUGH = [("MC_PathsU.cfg", "design: unary laws, 8 conventions, |p|<=4"),
                ("MC_PathsT.cfg", "design: pair and triple laws, 8 conventions, |p|<=2 |q|<=2 |r|<=1"),
                ("MC_PathsXT.cfg", "design: translation laws, 64 convention pairs, roots |.|<=1, relative part |q|<=2"),
                ("MC_PathsST.cfg", "design: folder laws on folders as spelled, 8 conventions, raw |p|<=3 and 14 re-spellings, |q|<=1, |r|<=1"),
-               ("MC_PathsYT.cfg", "design: translation laws, roots as spelled (raw and 14 re-spellings, |p|,|r|<=1), 64 convention pairs")]
+               ("MC_PathsYT.cfg", "design: translation laws, roots as spelled (raw and 14 re-spellings, |p|,|r|<=1), 64 convention pairs"),
+               ("MC_PathsET.cfg", "design: one-sided laws over { / A e-acute U+00C9 U+0130 i U+0307 }, 8 conventions, |p|<=3 |q|<=2")]
 
 
 def bounds(tier):
@@ -484,16 +489,22 @@ def bounds(tier):
     S: folders as spelled, [(lp, lq, lr, folder name characters, characters of one-character relative parts, of longer ones,
     spelling numbers, further name characters where win_paths is on)] - arguments of generate_spelled;
     YONE: one root as spelled against the bare root of the other side, 16 pairs (same: side 0 spelled; opposite: either side),
-    [(lp, lq, ...)]; YBOTH: both roots as spelled (the same spelling number), all 64 pairs, [(lp, lq, lr, ...)]."""
+    [(lp, lq, ...)]; YBOTH: both roots as spelled (the same spelling number), all 64 pairs, [(lp, lq, lr, ...)];
+    EXT: [(kind, lp, lq, lr, alphabet)] - further U / B / T families over alphabets with names that change under lower():
+    U+00C9 (lower: U+00E9) and U+0130 (lower: 'i' U+0307, two characters), in leaf and in folder position."""
     a, A, dot, sl, bs, ea, colon = (CODE[x] for x in "aA./\\é:")
+    uea, idot, li, cdot = (CODE[x] for x in "É\u0130i\u0307")
     every = tuple(range(1, 8))
     if tier == "quick":
         return dict(U=4, B=(2, 2), T=(1, 1, 1), XALL=(1, 1, 0), XDEEP=[(1, 1, 1), (1, 2, 0), (0, 2, 1)], nlong=40, mc=MC_QUICK,
                     S=[(3, 1, 0, (a, A), (sl, bs, a, A, ea), (), ALL_SPELLS), (1, 1, 1, (a, A), (sl, bs, a, A, ea), (), (1, 2, 3, 7, 12, 13))],
-                    YONE=[(1, 1, (a, A), (sl, bs, a, A, ea), (), (1, 2, 3, 6, 7, 12, 13))], YBOTH=[])
+                    YONE=[(1, 1, (a, A), (sl, bs, a, A, ea), (), (1, 2, 3, 6, 7, 12, 13))], YBOTH=[],
+                    EXT=[("U", 4, 0, 0, (sl, A, uea, idot)), ("B", 2, 2, 0, (sl, idot, li, cdot))])
     return dict(U=5, B=(3, 2), T=(2, 2, 1), XALL=(1, 1, 1), XDEEP=[(1, 2, 1), (2, 1, 1)], nlong=400, mc=MC_QUICK + MC_THOROUGH,
                 S=[(3, 3, 0, (a, A, dot), every, (sl, bs, a), ALL_SPELLS, (colon,)), (2, 1, 1, (a, A, dot), every, (), ALL_SPELLS, (colon,))],
-                YONE=[(1, 2, (a, A), every, (sl, bs, a, A), ALL_SPELLS)], YBOTH=[(1, 1, 1, (a, A), every, (), ALL_SPELLS)])
+                YONE=[(1, 2, (a, A), every, (sl, bs, a, A), ALL_SPELLS)], YBOTH=[(1, 1, 1, (a, A), every, (), ALL_SPELLS)],
+                EXT=[("U", 5, 0, 0, (sl, bs, A, uea, idot)), ("U", 4, 0, 0, (sl, idot, li, cdot, uea, ea)),
+                     ("B", 2, 2, 0, (sl, idot, li, cdot, uea, ea)), ("T", 1, 1, 1, (sl, idot, li, cdot, uea, ea))])
 
 
 def fam_text(f):
@@ -509,12 +520,14 @@ def partner(c):
 
 
 def plan(b):
-    """[(kind, convention, convention2, (win, lp, lq, lr))]: which TLC-enumerated family feeds which configuration."""
+    """[(kind, convention, convention2, (win, lp, lq, lr[, alphabet]))]: which TLC-enumerated family feeds which configuration."""
     out = []
     for t in CONVS:
         out.append(("U", t, None, (t[2], b["U"], 0, 0)))
         out.append(("B", t, None, (t[2], b["B"][0], b["B"][1], 0)))
         out.append(("T", t, None, (t[2],) + tuple(b["T"])))
+        for kind, lp, lq, lr, ext in b["EXT"]:          # names that change under lower(): their own alphabets
+            out.append((kind, t, None, (0, lp, lq, lr, tuple(ext))))
     for ta in CONVS:
         for tb in CONVS:
             fams = [tuple(b["XALL"])] + ([tuple(d) for d in b["XDEEP"]] if tb == ta or tb == partner(ta) else [])
@@ -578,8 +591,9 @@ def run(ctx):
         "non-empty relative part was moved by replace_path; X / Y a non-empty relative part was translated; S a non-empty relative "
         "part was reported inside / moved for a folder as spelled")
     ctx.assume(
-        "characters are represented by 8 classes: both separators, 'a', 'A', '.', ' ', U+00E9, ':' (':' enumerated only where "
-        "win_paths is on, and in the long random paths)",
+        "characters are represented by 12 classes: both separators, 'a', 'A', '.', ' ', U+00E9, ':' (':' enumerated only where "
+        "win_paths is on, and in the long random paths), and - in the EXT families and the long random paths - U+00C9, U+0130 "
+        "(lower() = 'i' U+0307: the only character whose lower-casing changes the length), 'i', U+0307",
         "the helpers are exercised on bare Provider subclasses (abstract methods stubbed) that only set sep / alt_sep / "
         "case_sensitive / win_paths; "
         "translate on real CloudSync objects whose roots attribute is assigned per case; is_subpath_of_root with the "
@@ -636,6 +650,9 @@ def run(ctx):
         "T": "every triple |p|<=%d |q|<=%d |r|<=%d, 8 configurations" % b["T"],
         "X": "translation (root0 = join(r0), root1 = join(r1), relative part q): every (|r0|, |q|, |r1|) <= %s for all 64 ordered "
              "pairs of configurations, and <= %s for the 16 pairs (same, opposite)" % (b["XALL"], " / ".join(map(str, b["XDEEP"]))),
+        "EXT": "the same U / B / T laws over alphabets with letters that change under lower() - U+00C9 'E acute' and U+0130 'I with dot "
+               "above', whose lower() is the two characters 'i' U+0307 - every string / pair / triple, 8 configurations: %s"
+               % " / ".join("%s |p|<=%d |q|<=%d |r|<=%d over %r" % (k, lp, lq, lr, s2p(x)) for k, lp, lq, lr, x in b["EXT"]),
         "S": "folder laws on folders AS SPELLED (Paths!Spell numbers: 0 as join writes it, 1-5 separators at the end, 6-8 alternate "
              "separators throughout, 9-11 doubled inside, 12 doubled in front, 13 everything doubled): folder F = Spell(join(p), k), "
              "new folder G = Spell(join(r), k), relative part q; 8 configurations; %s (':' added to one-character relative parts, "
